@@ -314,7 +314,7 @@ impl Property for C17 {
         40_000
     }
     fn random_cases(&self, tier: Tier) -> u64 {
-        tier.pick(20_000, 300_000)
+        tier.pick(80_000, 400_000)
     }
     fn run(&self, t: &mut Tape, ctx: &mut CaseCtx) -> Verdict {
         match t.weighted(&[6, 4, 2]) {
